@@ -29,6 +29,7 @@ import (
 	"tunnox-core/internal/cloud/managers"
 	"tunnox-core/internal/cloud/models"
 	corelog "tunnox-core/internal/core/log"
+	"tunnox-core/internal/core/storage"
 	"tunnox-core/internal/packet"
 	"tunnox-core/internal/protocol/session"
 	"tunnox-core/internal/security"
@@ -157,8 +158,28 @@ func bfOp(p *security.BruteForceProtector, ps []string) string {
 	return "-"
 }
 
-func ipmOp(m *security.IPManager, tl *timeline, ps []string) string {
+// ipmBox: the IPManager that currently answers, the storage it persists to, and what has to be
+// rebuilt when a new manager takes over (`rs`: NewIPManager over the same storage → loadFromStorage).
+type ipmBox struct {
+	m         *security.IPManager
+	st        storage.Storage
+	ctx       context.Context
+	onRestart func(*security.IPManager)
+}
+
+func newIpmBox(ctx context.Context) *ipmBox {
+	st := storage.NewMemoryStorage(ctx)
+	return &ipmBox{m: security.NewIPManager(st, ctx), st: st, ctx: ctx}
+}
+
+func ipmOp(box *ipmBox, tl *timeline, ps []string) string {
+	m := box.m
 	switch ps[0] {
+	case "rs":
+		box.m = security.NewIPManager(box.st, box.ctx)
+		if box.onRestart != nil {
+			box.onRestart(box.m)
+		}
 	case "ab":
 		k, err := keyStr(ps[1])
 		if err != nil {
@@ -232,8 +253,8 @@ func runIP(toks []string, scale int) (string, error) {
 	}
 	ctx, cancel := context.WithCancel(context.Background())
 	defer cancel()
-	m := security.NewIPManager(nil, ctx)
-	return runTimeline(evs, scale, func(tl *timeline, e event) string { return ipmOp(m, tl, e.ps) })
+	box := newIpmBox(ctx)
+	return runTimeline(evs, scale, func(tl *timeline, e event) string { return ipmOp(box, tl, e.ps) })
 }
 
 func runRL(toks []string, scale int) (string, error) {
@@ -373,6 +394,7 @@ func runHS(toks []string, scale int) (string, error) {
 	}
 	cc := &fakeCC{known: map[int64]*models.ClientConfig{knownClient: {SecretKeyEncrypted: enc}}}
 	var env *secEnv
+	var box *ipmBox
 	var h *server.ServerAuthHandler
 	return runTimeline(evs, scale, func(tl *timeline, e event) string {
 		if env == nil {
@@ -380,13 +402,18 @@ func runHS(toks []string, scale int) (string, error) {
 			env.bf = security.NewBruteForceProtector(&security.BruteForceConfig{
 				MaxFailures: atoi(toks[0]), TimeWindow: tl.dur(atoi(toks[1])), BanDuration: tl.dur(atoi(toks[2])),
 				PermanentBanAt: atoi(toks[3]), CleanupInterval: time.Hour}, ctx)
-			env.ipm = security.NewIPManager(nil, ctx)
+			box = newIpmBox(ctx)
+			env.ipm = box.m
+			box.onRestart = func(m *security.IPManager) {
+				env.ipm = m
+				h = server.NewServerAuthHandler(cc, &session.SessionManager{}, env.bf, env.ipm, env.rl, skm)
+			}
 			env.rl = newLimiter(atoi(toks[4]), atoi(toks[5]), tl.dur(atoi(toks[6])), scale, ctx)
 			h = server.NewServerAuthHandler(cc, &session.SessionManager{}, env.bf, env.ipm, env.rl, skm)
 		}
 		switch e.ps[0] {
 		case "i":
-			ipmOp(env.ipm, tl, e.ps[1:])
+			ipmOp(box, tl, e.ps[1:])
 			return "-"
 		case "p":
 			bfOp(env.bf, e.ps[1:])
